@@ -248,12 +248,15 @@ macro_rules! fhe_backend {
                                     map.insert(k, ct);
                                 }
                                 let mut res: GLWE<Vec<u8>> = enc_item(99, 1, 7);      // a re-used destination
+                                // exactly the declared scratch (C12)
+                                let mut scratch: ScratchOwned<BE> = ScratchOwned::alloc(GLWEBlindSelection::<u32, BE>::glwe_blind_selection_tmp_bytes(module, &res, &ggsw_infos));
                                 GLWEBlindSelection::<u32, BE>::glwe_blind_selection(module, &mut res, map, &sel, rsh, mask, scratch.borrow());
                                 vec![dec_ct(&res)]
                             }
                             "retrieval" => {
                                 let n = gu("n", 1);
                                 let mut v: Vec<GLWE<Vec<u8>>> = (0..n).map(|i| enc_item(i as i64 + 1, 0, 200 + i as u64)).collect();
+                                let mut scratch: ScratchOwned<BE> = ScratchOwned::alloc(module.glwe_blind_retrieval_tmp_bytes(&v[0], &ggsw_infos));
                                 module.glwe_blind_retrieval_statefull(&mut v, &sel, rsh, mask, scratch.borrow());
                                 let fwd: Vec<Value> = v.iter().map(&dec_ct).collect();
                                 module.glwe_blind_retrieval_statefull_rev(&mut v, &sel, rsh, mask, scratch.borrow());
@@ -291,6 +294,7 @@ macro_rules! fhe_backend {
                             "cswap" => {
                                 let mut x = enc_item(1, 0, 500);
                                 let mut y = enc_item(2, 0, 501);
+                                let mut scratch: ScratchOwned<BE> = ScratchOwned::alloc(module.cswap_tmp_bytes(&x, &y, &ggsw_infos));
                                 module.cswap(&mut x, &mut y, &sel.get_bit(rsh), scratch.borrow());
                                 vec![dec_ct(&x), dec_ct(&y)]
                             }
@@ -298,6 +302,7 @@ macro_rules! fhe_backend {
                                 let pos = gu("pos", 0);
                                 let neg = c.get("neg").and_then(|v| v.as_bool()).unwrap_or(false);
                                 let x = enc_item(gu("val", 1) as i64, pos, 600);
+                                let mut scratch: ScratchOwned<BE> = ScratchOwned::alloc(module.glwe_blind_rotation_tmp_bytes(&x, &ggsw_infos));
                                 if op == "rotate" {
                                     let mut res: GLWE<Vec<u8>> = enc_item(99, 1, 9);
                                     module.glwe_blind_rotation(&mut res, &x, &sel, !neg, rsh, mask, lsh, scratch.borrow());
